@@ -351,7 +351,8 @@ def shell_model(draw, force=None, max_ports=6, collide=False):  # pylint: disabl
         itf_fqn = tuple(sc) + tuple(itf['name'])
         ev_taken = set()
         n_in = draw(st.integers(2 if 'mc_ready' in feats else 1, 4))
-        n_out = draw(st.integers(1 if ({'mc_ready', 'prefix_ports', 'out_inout'} & feats) else 0, 3))
+        n_out = draw(st.integers(1 if ({'mc_ready', 'prefix_ports', 'out_inout', 'out_many_formals',
+                                        'ref_extern'} & feats) else 0, 3))
         if 'one_way_itf' in feats and not itf.get('mirror'):
             # one-way interfaces: the first has out-events only (a provides port of it has nothing
             # inbound), the second in-events only (a requires port of it has nothing inbound)
